@@ -46,5 +46,128 @@ linalg.pinv = pinv
 shim.linalg = linalg
 
 
+# ----------------------------------------------------------------------------- scipy (seen through lentil's imports)
+import scipy as _scipy
+import scipy.interpolate, scipy.integrate, scipy.ndimage, scipy.optimize, scipy.signal
+
+
+class interp1d:
+    """scipy.interpolate.interp1d(kind='linear', bounds_error=False, fill_value=v): piecewise-linear interpolant, fill outside.
+    Concrete abscissae and query points (exact rational arithmetic on the decimal reading), symbolic ordinates / fill value;
+    symbolic abscissae or query points are handled with if-then-else chains."""
+
+    def __init__(self, x, y, kind='linear', copy=True, bounds_error=None, fill_value=float('nan'), assume_sorted=False, axis=-1):
+        if kind != 'linear':
+            raise SymxUnsupported(f"interp1d(kind={kind!r}) is not modelled (spline fitting is behind scipy)")
+        if not (is_sym(x) or is_sym(y) or is_sym(fill_value)):
+            self.real = _scipy.interpolate.interp1d(x, y, kind=kind, copy=copy, bounds_error=bounds_error, fill_value=fill_value, assume_sorted=assume_sorted)
+        else:
+            self.real = None
+        self.x = list(to_sarr(x).ravel()) if is_sym(x) else [v for v in rnp.asarray(x, dtype=float).ravel()]
+        self.y = list(to_sarr(y).ravel()) if is_sym(y) else [v for v in rnp.asarray(y).ravel()]
+        if len(self.x) != len(self.y):
+            raise ValueError('x and y arrays must be equal in length along interpolation axis.')
+        if len(self.x) < 2 and False:
+            raise ValueError('x and y arrays must have at least 2 entries')
+        self.fill = fill_value
+        self.bounds_error = bounds_error
+
+    def _one(self, q):
+        from .core import ite, as_num, SNum
+        x, y = self.x, self.y
+        sym_geo = isinstance(q, SNum) or any(isinstance(v, SNum) for v in x)
+        fill = self.fill
+        if not sym_geo:
+            qf = core.F(q)
+            xs = [core.F(v) for v in x]
+            if qf < xs[0] or qf > xs[-1]:
+                return fill
+            for k in range(len(xs) - 1):
+                if xs[k] <= qf <= xs[k + 1]:
+                    if qf == xs[k]:
+                        return y[k]
+                    if qf == xs[k + 1]:
+                        return y[k + 1]
+                    t = (qf - xs[k]) / (xs[k + 1] - xs[k])
+                    return y[k] * SNum(core.Poly.const(1 - t)) + y[k + 1] * SNum(core.Poly.const(t))
+            if len(xs) == 1 and qf == xs[0]:
+                return y[0]
+            return fill
+        # symbolic geometry: chain of if-then-else over the intervals
+        res = fill
+        for k in range(len(x) - 2, -1, -1):
+            t = (q - x[k]) / (x[k + 1] - x[k])
+            seg = y[k] * (1 - t) + y[k + 1] * t
+            res = ite((q >= x[k]) & (q <= x[k + 1]), seg, res)
+        return res
+
+    def __call__(self, xq):
+        if self.real is not None and not is_sym(xq):
+            return self.real(xq)
+        if isinstance(xq, (rnp.ndarray, list, tuple)):
+            Q = to_sarr(xq) if is_sym(xq) else rnp.asarray(xq, dtype=float)
+            out = rnp.empty(Q.shape, dtype=object)
+            for idx in rnp.ndindex(*Q.shape):
+                out[idx] = self._one(Q[idx])
+            r = out.view(arrays.SArr)
+            r.ldtype = 'float'
+            return r
+        return self._one(xq)
+
+
+def simpson(y=None, x=None, dx=1.0, axis=-1, **kw):
+    """scipy.integrate.simpson is linear in y: with a concrete abscissa grid its weights are obtained from the real scipy
+    on the unit vectors (realisation at the C boundary), so every spacing and the even-interval correction are scipy's own."""
+    if not is_sym(y) and not is_sym(x):
+        return _scipy.integrate.simpson(y, x=x, dx=dx, axis=axis, **kw)
+    if is_sym(x):
+        xc = try_concrete(to_sarr(x))
+        if xc is None:
+            raise SymxUnsupported('simpson with symbolic abscissae')
+    else:
+        xc = None if x is None else rnp.asarray(x, dtype=float)
+    Y = to_sarr(y).ravel()
+    n = len(Y)
+    acc = 0
+    for k in range(n):
+        e = rnp.zeros(n)
+        e[k] = 1.0
+        w = float(_scipy.integrate.simpson(e, x=xc, dx=dx))
+        if w != 0:
+            acc = acc + Y[k] * w
+    return acc
+
+
+class _Mod(types.ModuleType):
+    def __init__(self, name, real, over=None):
+        super().__init__(name)
+        self._real = real
+        for k, v in (over or {}).items():
+            setattr(self, k, v)
+
+    def __getattr__(self, n):
+        real = getattr(self._real, n)
+        if callable(real) and not isinstance(real, type):
+            def g(*a, **k):
+                if any(is_sym(x) for x in a) or any(is_sym(x) for x in k.values()):
+                    a2 = [try_concrete(to_sarr(x)) if is_sym(x) else x for x in a]
+                    k2 = {kk: (try_concrete(to_sarr(x)) if is_sym(x) else x) for kk, x in k.items()}
+                    if any(x is None for x in a2) or any(x is None for x in k2.values()):
+                        raise SymxUnsupported(f'{self.__name__}.{n} on symbolic data is not modelled')
+                    return real(*a2, **k2)
+                return real(*a, **k)
+            return g
+        return real
+
+
+sp_interpolate = _Mod('scipy.interpolate', _scipy.interpolate, {'interp1d': interp1d})
+sp_integrate = _Mod('scipy.integrate', _scipy.integrate, {'simpson': simpson})
+sp_ndimage = _Mod('scipy.ndimage', _scipy.ndimage)
+sp_optimize = _Mod('scipy.optimize', _scipy.optimize)
+sp_signal = _Mod('scipy.signal', _scipy.signal)
+sp = _Mod('scipy', _scipy, {'interpolate': sp_interpolate, 'integrate': sp_integrate, 'ndimage': sp_ndimage, 'optimize': sp_optimize, 'signal': sp_signal})
+
+
 def shims():
-    return {}
+    return {'scipy': sp, 'scipy.interpolate': sp_interpolate, 'scipy.integrate': sp_integrate, 'scipy.ndimage': sp_ndimage,
+            'scipy.optimize': sp_optimize, 'scipy.signal': sp_signal}
